@@ -82,6 +82,8 @@ func (f *FMap) mappings() []*compose.FieldMapping {
 // static types: false = string, true = map[string]any
 func (p *Prog) inMap() bool {
 	switch p.Op {
+	case "direct":
+		return true
 	case "pass":
 		return p.PassMap
 	case "node":
@@ -113,6 +115,8 @@ func (p *Prog) outMap() bool {
 // type of the value p itself produces (before any field mapping on its outgoing edges)
 func (p *Prog) rawOutMap() bool {
 	switch p.Op {
+	case "direct":
+		return true
 	case "pass":
 		return p.PassMap
 	case "node":
@@ -139,7 +143,7 @@ func (p *Prog) plen() (int, int) {
 	switch p.Op {
 	case "node", "sub", "pass":
 		return 1, 1
-	case "skip":
+	case "skip", "direct":
 		return 0, 0
 	case "loop":
 		return p.Kids[0].plen()
@@ -170,7 +174,7 @@ func (p *Prog) plen() (int, int) {
 // same length.
 func (p *Prog) balanced() bool {
 	switch p.Op {
-	case "node", "skip", "pass":
+	case "node", "skip", "pass", "direct":
 		return true
 	case "loop":
 		return p.Kids[0].balanced()
@@ -504,6 +508,10 @@ func build(g gAPI, p *Prog, from []string, rec *recorder, lb *loopBuild) (entrie
 		return nil
 	}
 	switch p.Op {
+	case "direct":
+		// a kid of a fan-out that is no node at all: the predecessors are connected to the
+		// fan-in node themselves (next to the paths through the other kids)
+		return nil, from, nil
 	case "pass":
 		key := nodeKey(p.ID)
 		if err = g.AddPassthroughNode(key); err != nil {
@@ -1046,10 +1054,11 @@ func valueOut(v any, err error) POut {
 	return POut{Class: "ok", Val: fromGo(v)}
 }
 
+// the caller's chunks, in a slice with spare capacity (the stream over it is array-backed)
 func typedChunks[I any](chunks []any) []I {
-	out := make([]I, len(chunks))
-	for i, c := range chunks {
-		out[i] = conv[I](c)
+	out := make([]I, 0, len(chunks)+2)
+	for _, c := range chunks {
+		out = append(out, conv[I](c))
 	}
 	return out
 }
